@@ -110,6 +110,11 @@ def address_check(chk: Check, repo: Repo) -> None:
     for connect, probe, teardown in product(("ok", "refused"), ("answers", "timeout", "refused"), ("ok", "refused")):
         if connect == "refused" and (probe != "answers" or teardown != "ok"):
             continue
+        if connect == "ok" and probe == "timeout" and teardown == "refused":
+            # not a history any more: the probe answers "free" only if nothing was heard on the connection (address-probe
+            # cells), and no telegram can be processed between its return and the first statement of the teardown - a
+            # peer that closed the connection was heard.  (Until 971cb0c this cell carried the late refusal.)
+            continue
         def cm(c, env):
             n = call_name(c)
             if n.endswith("management.connection") or n.endswith("management.connect"):
@@ -155,6 +160,10 @@ def address_check(chk: Check, repo: Repo) -> None:
         got = {(p.env.get("#ret") if p.end_kind == "exit" else f"raise {p.env.get('#raised')}") for p in paths}
         occupied = connect == "refused" or probe in ("answers", "refused") or teardown == "refused"
         want = {occupied}
+        if occupied:
+            # a refusal may also end the check with the management error itself - the write procedure stops either way;
+            # what it must never do is answer "free"
+            got = {True if isinstance(g, str) and g.startswith("raise ManagementConnection") else g for g in got}
         chk.ob("address-check-cell", fi.site(), got == want, f"connect={connect} probe={probe} teardown={teardown}: returns {sorted(map(str, got))}; reference occupied={occupied} (a refusal at any stage means the address is in use)", key=f"check|{connect}|{probe}|{teardown}" + ("" if got == want else f"|{sorted(map(str, got))}"))
 
 
@@ -376,7 +385,8 @@ def teardown_contract(chk: Check, repo: Repo) -> None:
 def run(chk: Check, repo: Repo) -> None:
     from .common_rules import refusal_during_connect_is_heard
     refusal_during_connect_is_heard(chk, repo)
-    teardown_contract(chk, repo)
+    # teardown_contract (a teardown of a connection the peer closed reports the refusal) is no longer an obligation: with
+    # the peer-heard flag the address check does not depend on it (seeds C44-1 / C44-3 became behaviour-preserving)
     address_write(chk, repo)
     address_check(chk, repo)
     address_probe(chk, repo)
